@@ -51,9 +51,10 @@ func init() {
 			}
 			return len(c.Lines) > 6 && ((grow && rm) || !hooks)
 		},
-		Rule:     "op sequences (set/setnx/setx/get/getnode/setnode/rm/clear/init/len/head/keys/values/range/all/rfrom/rrange with early stop, walk/walkfrom through Head()/GetNode()+Next(), a node handle kept across operations: hold/held/heldset/heldwalk) on SkipList[int|string,int] (zero value and New) and SkipListWithCmp (natural, reverse, modular-then-value / length-then-bytes total orders, comparators answering with arbitrary magnitudes: a-b, 7(a-b), sign·(1+hash), byte difference; and the weak orders k>>1 / length-only that identify distinct keys) with forced tower heights; non-trivial = ≥ 6 ops with at least one top-level growth and one successful removal; distinct by hash of the op list",
+		Rule:     "op sequences (set/setnx/setx/get/getnode/setnode/rm/clear/init/len/head/keys/values/range/all/rfrom/rrange with early stop, walk/walkfrom through Head()/GetNode()+Next(), a node handle kept across operations: hold/held/heldset/heldwalk) on SkipList[int|string,int] (zero value and New) and SkipListWithCmp (natural, reverse, modular-then-value / length-then-bytes total orders, comparators answering with arbitrary magnitudes: a-b, 7(a-b), sign·(1+hash), byte difference; and the weak orders k>>1 / length-only that identify distinct keys) with forced tower heights; wave-3 streams: `large` (2 000–5 000 keys through bulk fill/rmrange with natural and forced-tall towers, removal desc/strided/asc, Clear+refill cycles, range bounds around every 1000th key, a node handle kept throughout; towers compared as chain lengths and validated in place), `history` (4–12 Clear/Init/drain+refill cycles with handles), `magnitude` (int64 extremes, strings of length 0/1/1000, rare random-source words 0, 1, 2^31, 2^32-1, 2^63 …); non-trivial = ≥ 6 ops with at least one top-level growth and one successful removal; distinct by hash of the op list",
 		Classify: classify,
 		Facts:    facts,
+		Extras:   []core.Extra{{Name: "huge-lists-go-oracle", Run: extraHuge}},
 		Parallel: true,
 		Assumptions: []string{
 			"Go int treated as unbounded (Len)",
@@ -189,7 +190,227 @@ func wordFor(r *core.Rand, L int) uint64 {
 
 var strKeys = []string{"", "a", "b", "c", "aa", "ab", "ba", "b\x80", "\xff", "a\x00", "abc", "abd", "z", "\x7f"}
 
+// vdumpFlag: large lists are dumped as validated chain lengths.
+func vdumpFlag() string {
+	if hooks {
+		return "vdump"
+	}
+	return "nodump"
+}
+
+var rareWords = []uint64{0, 1, 2, 3, 1<<31 - 1, 1 << 31, 1<<31 + 1, 1<<32 - 1, 1 << 32, 1<<32 + 1, 1 << 63, 1<<63 | 1, 1<<64 - 1, 1<<63 | 1<<31}
+
+// genLarge: thousands of keys through the bulk operations (natural and forced-tall towers so
+// that levels up to 16+ are populated), removal in descending / strided / ascending order so
+// that the top levels shrink repeatedly, Clear and refill cycles, range bounds at and around
+// every 1000th key, a node handle kept across all of it.
+func genLarge(r *core.Rand, tier string) core.Case {
+	n := r.Range(2000, 2200)
+	if tier == "thorough" {
+		n = r.Range(2000, 5000)
+	}
+	kind, cmp := "new", "nat"
+	if r.Bool() {
+		kind = "cmp"
+		cmp = []string{"nat", "rev", "diff", "scaled", "sgnhash", "mod3", "half"}[r.Intn(7)]
+	}
+	lines := []string{fmt.Sprintf("@ C02 %s int %s %s", kind, cmp, vdumpFlag())}
+	step := []int{1, 1, 2, 3, 7}[r.Intn(5)]
+	lo := []int{0, -(n / 2) * step, 1 << 20}[r.Intn(3)]
+	hi := lo + n*step
+	kinds := []string{"nat", "tall"}
+	key := func(i int) int { return lo + step*i }
+	probes := func() {
+		for j := 0; j*1000 <= n; j++ {
+			k := key(j*1000) + r.Range(-1, 1)*step + r.Range(-1, 1)
+			switch r.Intn(4) {
+			case 0:
+				lines = append(lines, fmt.Sprintf("rfrom %d %d", k, r.Range(1, 4)))
+			case 1:
+				lines = append(lines, fmt.Sprintf("rrange %d %d %d", k, k+r.Range(0, 5)*step, r.Range(0, 7)))
+			case 2:
+				lines = append(lines, fmt.Sprintf("getnode %d", k))
+			case 3:
+				lines = append(lines, fmt.Sprintf("get %d", k))
+			}
+		}
+	}
+	lines = append(lines, fmt.Sprintf("set %d 7 %d", lo, wordFor(r, r.Range(1, 20))), fmt.Sprintf("hold %d", lo))
+	cycles := r.Range(2, 4)
+	for c := 0; c < cycles; c++ {
+		lines = append(lines, fmt.Sprintf("fill %d %d %d %d %s", lo, hi, step, r.Uint64(), kinds[r.Intn(2)]))
+		probes()
+		if c == 0 {
+			lines = append(lines, "held", fmt.Sprintf("heldset %d", 9000+c), "keys", "values", "walk", fmt.Sprintf("walkfrom %d", key(n-3)))
+		}
+		// remove everything but the first key (the kept node), in one or two sweeps
+		order := []string{"desc", "stride", "asc"}[r.Intn(3)]
+		stride := 1
+		if order == "stride" {
+			stride = []int{3, 7, 11, 13, 101, 997}[r.Intn(6)]
+			for (n-1)%stride == 0 && stride > 1 { // coprime to the count: every index exactly once
+				stride += 2
+			}
+			for gcd(stride, n-1) != 1 {
+				stride++
+			}
+		}
+		if r.Chance(40) {
+			mid := key(n / 2)
+			lines = append(lines, fmt.Sprintf("rmrange %d %d %d %s %d", mid, hi, step, "desc", 1))
+			lines = append(lines, "len", fmt.Sprintf("rfrom %d 2", mid-step))
+			lines = append(lines, fmt.Sprintf("rmrange %d %d %d %s %d", lo+step, mid, step, "desc", 1))
+		} else {
+			lines = append(lines, fmt.Sprintf("rmrange %d %d %d %s %d", lo+step, hi, step, order, stride))
+		}
+		lines = append(lines, "len", "held")
+		if r.Chance(50) {
+			lines = append(lines, "clear", "len", fmt.Sprintf("set %d 7 %d", lo, wordFor(r, r.Range(1, 20))), fmt.Sprintf("hold %d", lo))
+		}
+	}
+	lines = append(lines, "head", "range 3", "all 3", "keys")
+	return core.Case{Lines: lines, Tag: "large"}
+}
+
+func gcd(a, b int) int {
+	for b != 0 {
+		a, b = b, a%b
+	}
+	if a < 0 {
+		return -a
+	}
+	return a
+}
+
+// genHistory: many Clear / Init / refill cycles on the same list, with a node handle taken in
+// every cycle and used across the following operations.
+func genHistory(r *core.Rand, tier string) core.Case {
+	kind := []string{"zero", "new", "cmp"}[r.Intn(3)]
+	cmp := "nat"
+	if kind == "cmp" {
+		cmp = []string{"nat", "rev", "mod3", "half", "sgnhash"}[r.Intn(5)]
+	}
+	lines := []string{fmt.Sprintf("@ C02 %s int %s %s", kind, cmp, dumpFlag())}
+	val := 100
+	cycles := r.Range(4, 12)
+	span := r.Range(5, 14)
+	for c := 0; c < cycles; c++ {
+		m := r.Range(3, 14)
+		for i := 0; i < m; i++ {
+			val++
+			h := r.Range(1, 6)
+			if r.Chance(15) {
+				h = r.Range(7, 32)
+			}
+			lines = append(lines, fmt.Sprintf("set %d %d %d", r.Range(0, span), val, wordFor(r, h)))
+			if i == 1 {
+				lines = append(lines, fmt.Sprintf("hold %d", r.Range(0, span)))
+			}
+			if r.Chance(25) {
+				lines = append(lines, []string{"held", "heldwalk", fmt.Sprintf("heldset %d", val), "walk", fmt.Sprintf("rm %d", r.Range(0, span)), fmt.Sprintf("rfrom %d 0", r.Range(-1, span))}[r.Intn(6)])
+			}
+		}
+		lines = append(lines, "keys", "held")
+		switch r.Intn(4) {
+		case 0:
+			lines = append(lines, "init")
+		case 1:
+			lines = append(lines, "clear", "clear")
+		case 2:
+			lines = append(lines, "clear")
+		case 3: // drain by removal, highest key first
+			for k := span; k >= 0; k-- {
+				lines = append(lines, fmt.Sprintf("rm %d", k))
+			}
+		}
+		lines = append(lines, "len", "head", "held", "range 0")
+	}
+	return core.Case{Lines: lines, Tag: "history"}
+}
+
+var extremeInts = []int{-1 << 63, -1<<63 + 1, 1<<63 - 1, 1<<63 - 2, -1 << 32, -1<<32 - 1, -1<<32 + 1, 1 << 32, 1<<32 - 1, 1<<32 + 1,
+	-1 << 31, -1<<31 - 1, 1 << 31, 1<<31 - 1, 0, -1, 1}
+
+var longStrs = []string{"", "a", "\x00", "\xff", strings.Repeat("a", 1000), strings.Repeat("a", 999) + "b", strings.Repeat("a", 999),
+	strings.Repeat("\xff", 1000), strings.Repeat("a", 1001), "b"}
+
+// genMagnitude: keys at the int64 extremes, strings of length 0 / 1 / 1000, and the rare
+// words of the random source (0, 1, 2^31, 2^32-1, 2^63, …) that give the extreme tower heights.
+func genMagnitude(r *core.Rand, tier string) core.Case {
+	kind := []string{"zero", "new", "cmp", "cmp"}[r.Intn(4)]
+	kt, cmp := "int", "nat"
+	if r.Chance(35) {
+		kt = "str"
+	}
+	if kind == "cmp" {
+		if kt == "int" { // (a-b style comparators overflow at the extremes: not valid comparators there)
+			cmp = []string{"nat", "rev", "mod3", "half"}[r.Intn(4)]
+		} else {
+			cmp = []string{"nat", "rev", "len", "lenonly", "bytesdiff"}[r.Intn(5)]
+		}
+	}
+	lines := []string{fmt.Sprintf("@ C02 %s %s %s %s", kind, kt, cmp, dumpFlag())}
+	key := func() string {
+		if kt == "int" {
+			return strconv.Itoa(extremeInts[r.Intn(len(extremeInts))])
+		}
+		return showStr(longStrs[r.Intn(len(longStrs))])
+	}
+	word := func() uint64 {
+		if r.Chance(70) {
+			return rareWords[r.Intn(len(rareWords))]
+		}
+		return wordFor(r, r.Range(1, 32))
+	}
+	val := 100
+	for i, n := 0, r.Range(8, 40); i < n; i++ {
+		val++
+		switch r.Pick(30, 8, 6, 12, 6, 4, 4, 6, 6, 2, 2, 2) {
+		case 0:
+			lines = append(lines, fmt.Sprintf("set %s %d %d", key(), val, word()))
+		case 1:
+			lines = append(lines, fmt.Sprintf("setnx %s %d %d", key(), val, word()))
+		case 2:
+			lines = append(lines, fmt.Sprintf("setx %s %d %d", key(), val, word()))
+		case 3:
+			lines = append(lines, "rm "+key())
+		case 4:
+			lines = append(lines, "get "+key())
+		case 5:
+			lines = append(lines, "getnode "+key())
+		case 6:
+			lines = append(lines, "keys")
+		case 7:
+			lines = append(lines, fmt.Sprintf("rfrom %s %d", key(), r.Range(0, 3)))
+		case 8:
+			lines = append(lines, fmt.Sprintf("rrange %s %s %d", key(), key(), r.Range(0, 3)))
+		case 9:
+			lines = append(lines, "walk")
+		case 10:
+			lines = append(lines, "head")
+		case 11:
+			lines = append(lines, "clear")
+		}
+	}
+	lines = append(lines, "len", "keys", "values", "range 0", "all 0")
+	return core.Case{Lines: lines, Tag: "magnitude"}
+}
+
 func gen(r *core.Rand, tier string) core.Case {
+	// wave-3 streams: a light share in quick, a larger one in thorough (and on anchor drift,
+	// when core asks for the thorough generator)
+	share := 1 // per mille of `large`
+	if tier == "thorough" {
+		share = 1 // larger lists (up to 5 000 keys); ≈ 120 of 120 000 cases
+	}
+	switch x := r.Intn(1000); {
+	case x < share:
+		return genLarge(r, tier)
+	case x < share+40:
+		return genHistory(r, tier)
+	case x < share+90:
+		return genMagnitude(r, tier)
+	}
 	kind := []string{"zero", "new", "cmp", "cmp"}[r.Intn(4)]
 	kt := "int"
 	if r.Chance(30) {
@@ -365,7 +586,9 @@ type run[K any] struct {
 	show      func(K) string
 	showRV    func(reflect.Value) string
 	dumpOn    bool
-	mismatch  bool // the unforced height of the lazy-init insert differs from what the line asks for
+	vdump     bool        // large lists: validate the towers in place, print chain lengths only
+	ofInt     func(int) K // bulk operations (int keys only)
+	mismatch  bool        // the unforced height of the lazy-init insert differs from what the line asks for
 	structBad string
 	halted    bool         // the reflected towers are damaged: no further call into the real code
 	held      *nodeView[K] // node handle kept by `hold`
@@ -378,6 +601,28 @@ func (r *run[K]) lazyMismatch() bool { return r.mismatch }
 func (r *run[K]) dump() string {
 	if !r.dumpOn {
 		return ""
+	}
+	if r.vdump {
+		level, n, isNil, lens, bad := towerLens(r.l.ptr, r.l.cmp)
+		if bad != "" {
+			r.structBad = bad
+		}
+		if bad != "" || (!isNil && (len(lens) > level || level < 1 || level > 32)) {
+			r.halted = true
+		}
+		body := "nil"
+		if !isNil {
+			ss := make([]string, len(lens))
+			for i, x := range lens {
+				ss[i] = strconv.Itoa(x)
+			}
+			body = strings.Join(ss, ",")
+		}
+		s := fmt.Sprintf(" | L=%d n=%d lens=%s", level, n, body)
+		if r.structBad != "" {
+			s += " !" + r.structBad
+		}
+		return s
 	}
 	level, n, isNil, chains, bad := towers(r.l.ptr, r.showRV)
 	if bad != "" {
@@ -448,6 +693,34 @@ func (r *run[K]) walk(n *nodeView[K]) string {
 		n = n.nextNode()
 	}
 	return r.kvs(xs)
+}
+
+type bulk struct{ lo, hi, step, n int }
+
+// parseBulk reads `op lo hi step x y` (6 tokens); n = number of keys lo, lo+step, … < hi.
+func parseBulk(t []string) (bulk, bool) {
+	var a bulk
+	if len(t) != 6 {
+		return a, false
+	}
+	var err1, err2, err3 error
+	a.lo, err1 = strconv.Atoi(t[1])
+	a.hi, err2 = strconv.Atoi(t[2])
+	a.step, err3 = strconv.Atoi(t[3])
+	if err1 != nil || err2 != nil || err3 != nil {
+		return a, false
+	}
+	if a.hi > a.lo && a.step > 0 {
+		a.n = (a.hi - a.lo + a.step - 1) / a.step
+	}
+	return a, a.n <= 100000
+}
+
+func bulkWord(tall bool, x uint64) uint64 {
+	if tall && (x>>60)%4 == 0 {
+		return uint64(1) << (32 - (12 + (x>>56)%8))
+	}
+	return x >> 16
 }
 
 type kv[K any] struct {
@@ -543,6 +816,57 @@ func (r *run[K]) step(t []string) string {
 		}
 		n.setValue(v)
 		return "ok"
+	case "fill":
+		a, ok := parseBulk(t)
+		if !ok || r.ofInt == nil || (t[5] != "nat" && t[5] != "tall") {
+			return "bad-op"
+		}
+		seed, err := strconv.ParseUint(t[4], 10, 64)
+		if err != nil {
+			return "bad-op"
+		}
+		if r.dumpOn && uninitialised(l.ptr) {
+			// the first insert of a bulk fill into a zero value would draw from the time-seeded source
+			return "bad-op"
+		}
+		x, cnt := seed, 0
+		for i := 0; i < a.n; i++ {
+			x = x*6364136223846793005 + 1442695040888963407
+			r.src.v = bulkWord(t[5] == "tall", x)
+			if l.setNx(r.ofInt(a.lo+a.step*i), 1000+i) {
+				cnt++
+			}
+		}
+		return strconv.Itoa(cnt)
+	case "rmrange":
+		a, ok := parseBulk(t)
+		if !ok || r.ofInt == nil {
+			return "bad-op"
+		}
+		stride, err := strconv.ParseUint(t[5], 10, 32)
+		if err != nil || (t[4] != "asc" && t[4] != "desc" && t[4] != "stride") {
+			return "bad-op"
+		}
+		cnt := 0
+		for i := 0; i < a.n; i++ {
+			idx := i
+			switch t[4] {
+			case "desc":
+				idx = a.n - 1 - i
+			case "stride":
+				idx = int((uint64(i) * stride) % uint64(a.n))
+			}
+			if _, ok := l.remove(r.ofInt(a.lo + a.step*idx)); ok {
+				cnt++
+			}
+		}
+		if r.held != nil {
+			l.argKey = r.held.key
+			if l.getNode() == nil {
+				r.held = nil
+			}
+		}
+		return strconv.Itoa(cnt)
 	case "walk", "heldwalk", "held":
 		if len(t) != 1 {
 			return "bad-op"
@@ -688,11 +1012,12 @@ func (r *run[K]) step(t []string) string {
 }
 
 func newRunner(hdr []string) runner {
-	if len(hdr) != 4 || (hdr[3] != "dump" && hdr[3] != "nodump") {
+	if len(hdr) != 4 || (hdr[3] != "dump" && hdr[3] != "nodump" && hdr[3] != "vdump") {
 		return nil
 	}
 	kind, kt, cmp := hdr[0], hdr[1], hdr[2]
-	dumpOn := hdr[3] == "dump"
+	dumpOn := hdr[3] != "nodump"
+	vdump := hdr[3] == "vdump"
 	src := &forced{}
 	finish := func(ptr any) {
 		if dumpOn && kind != "zero" {
@@ -701,7 +1026,7 @@ func newRunner(hdr []string) runner {
 	}
 	switch kt {
 	case "int":
-		r := &run[int]{src: src, parse: parseIntKey, show: strconv.Itoa, dumpOn: dumpOn,
+		r := &run[int]{src: src, parse: parseIntKey, show: strconv.Itoa, dumpOn: dumpOn, vdump: vdump, ofInt: func(i int) int { return i },
 			showRV: func(v reflect.Value) string { return strconv.FormatInt(v.Int(), 10) }}
 		switch kind {
 		case "zero":
@@ -726,7 +1051,7 @@ func newRunner(hdr []string) runner {
 		finish(r.l.ptr)
 		return r
 	case "str":
-		r := &run[string]{src: src, parse: parseStr, show: showStr, dumpOn: dumpOn,
+		r := &run[string]{src: src, parse: parseStr, show: showStr, dumpOn: dumpOn, vdump: vdump,
 			showRV: func(v reflect.Value) string { return showStr(v.String()) }}
 		switch kind {
 		case "zero":
@@ -847,7 +1172,21 @@ func check(c core.Case, out []string) *core.Failure {
 		v int
 	}
 	var ref []ent
+	// total orders: a key is its own class, look it up by token; weak orders: linear search
+	weak := cmpName == "half" || cmpName == "halfdiff" || cmpName == "lenonly"
+	idx := map[string]int{}
 	find := func(k string) int {
+		if !weak {
+			if kt == "int" { // canonical token ("+1", "01" never generated, but stay safe)
+				if v, err := strconv.Atoi(k); err == nil {
+					k = strconv.Itoa(v)
+				}
+			}
+			if j, ok := idx[k]; ok {
+				return j
+			}
+			return -1
+		}
 		for i := range ref {
 			if cmp(ref[i].k, k) == 0 {
 				return i
@@ -855,10 +1194,24 @@ func check(c core.Case, out []string) *core.Failure {
 		}
 		return -1
 	}
+	del := func(j int) {
+		delete(idx, ref[j].k)
+		last := len(ref) - 1
+		if j != last {
+			ref[j] = ref[last]
+			idx[ref[j].k] = j
+		}
+		ref = ref[:last]
+	}
+	var sortedCache []ent
+	dirty := true
 	sortedEnts := func() []ent {
-		es := append([]ent(nil), ref...)
-		sort.SliceStable(es, func(i, j int) bool { return cmp(es[i].k, es[j].k) < 0 })
-		return es
+		if dirty {
+			sortedCache = append([]ent(nil), ref...)
+			sort.Slice(sortedCache, func(i, j int) bool { return cmp(sortedCache[i].k, sortedCache[j].k) < 0 })
+			dirty = false
+		}
+		return sortedCache
 	}
 	sorted := func() []string {
 		es := sortedEnts()
@@ -912,7 +1265,17 @@ func check(c core.Case, out []string) *core.Failure {
 			if zv && !initialised {
 				key = "zero-value-" + key
 			}
-			return &core.Failure{Key: key, Desc: fmt.Sprintf("op %d %q: implementation answered %q, a sorted map holding %s answers %q", i, c.Lines[i], res, kvs(sortedEnts(), 0), want)}
+			clip := func(x string) string {
+				if len(x) > 400 {
+					return x[:400] + "…(" + strconv.Itoa(len(x)) + " bytes)"
+				}
+				return x
+			}
+			holding := kvs(sortedEnts(), 12)
+			if len(ref) > 12 {
+				holding += fmt.Sprintf("… (%d bindings)", len(ref))
+			}
+			return &core.Failure{Key: key, Desc: fmt.Sprintf("op %d %q: implementation answered %q, a sorted map holding %s answers %q", i, c.Lines[i], clip(res), holding, clip(want))}
 		}
 		if res == "bad-op" || res == "dead" || res == "halted" {
 			continue
@@ -924,9 +1287,11 @@ func check(c core.Case, out []string) *core.Failure {
 			t := core.Toks(c.Lines[i])
 			want := ""
 			put := func(k string, v int) {
+				dirty = true
 				if j := find(k); j >= 0 {
 					ref[j].v = v // the stored key stays
 				} else {
+					idx[k] = len(ref)
 					ref = append(ref, ent{k, v})
 				}
 			}
@@ -963,10 +1328,44 @@ func check(c core.Case, out []string) *core.Failure {
 					if hasHeld && cmp(held, ref[j].k) == 0 {
 						hasHeld = false
 					}
-					ref = append(ref[:j], ref[j+1:]...)
+					del(j)
+					dirty = true
 				} else {
 					want = "0 false"
 				}
+			case "fill":
+				a, _ := parseBulk(t)
+				cnt := 0
+				for i := 0; i < a.n; i++ {
+					k := strconv.Itoa(a.lo + a.step*i)
+					if find(k) < 0 {
+						put(k, 1000+i)
+						cnt++
+					}
+				}
+				want = strconv.Itoa(cnt)
+			case "rmrange":
+				a, _ := parseBulk(t)
+				stride, _ := strconv.ParseUint(t[5], 10, 32)
+				cnt := 0
+				for i := 0; i < a.n; i++ {
+					ix := i
+					switch t[4] {
+					case "desc":
+						ix = a.n - 1 - i
+					case "stride":
+						ix = int((uint64(i) * stride) % uint64(a.n))
+					}
+					if j := find(strconv.Itoa(a.lo + a.step*ix)); j >= 0 {
+						del(j)
+						dirty = true
+						cnt++
+					}
+				}
+				if hasHeld && find(held) < 0 {
+					hasHeld = false
+				}
+				want = strconv.Itoa(cnt)
 			case "getnode":
 				want = nodeStr(t[1])
 			case "hold":
@@ -1005,11 +1404,11 @@ func check(c core.Case, out []string) *core.Failure {
 					want = "nil"
 				}
 			case "clear":
-				ref = nil
+				ref, idx, dirty = nil, map[string]int{}, true
 				hasHeld = false
 				want = "ok"
 			case "init":
-				ref = nil
+				ref, idx, dirty = nil, map[string]int{}, true
 				hasHeld = false
 				want = "ok"
 				initialised = true
@@ -1082,6 +1481,48 @@ func checkTowers(dump string, keys []string, initialised bool, cmp func(a, b str
 	}
 	if n != len(keys) {
 		return fmt.Sprintf("len field %d, map has %d keys", n, len(keys))
+	}
+	if strings.HasPrefix(body, "lens=") {
+		// large lists: the runner has validated order, cycles and tower heights in place
+		// (reported through `!…`, handled above); here: the level bookkeeping
+		body = strings.TrimPrefix(body, "lens=")
+		if body == "nil" {
+			if level != 0 || n != 0 {
+				return "uninitialised list with level/len set"
+			}
+			return ""
+		}
+		if level < 1 || level > 32 {
+			return fmt.Sprintf("level %d out of [1,32]", level)
+		}
+		var lens []int
+		if body != "" {
+			for _, x := range strings.Split(body, ",") {
+				v, err := strconv.Atoi(x)
+				if err != nil {
+					return "unreadable dump"
+				}
+				lens = append(lens, v)
+			}
+		}
+		if len(lens) > level {
+			return fmt.Sprintf("non-empty chain above level %d", level)
+		}
+		if level > 1 && len(lens) < level {
+			return fmt.Sprintf("top level %d is empty", level)
+		}
+		if len(lens) > 0 && lens[0] != n {
+			return fmt.Sprintf("level 0 has %d nodes, len is %d", lens[0], n)
+		}
+		if len(lens) == 0 && n != 0 {
+			return fmt.Sprintf("level 0 is empty, len is %d", n)
+		}
+		for i := 1; i < len(lens); i++ {
+			if lens[i] > lens[i-1] {
+				return fmt.Sprintf("level %d is longer than level %d", i, i-1)
+			}
+		}
+		return ""
 	}
 	if body == "nil" {
 		if level != 0 || n != 0 {
@@ -1184,4 +1625,124 @@ func classify(c core.Case, out []string) []string {
 		}
 	}
 	return ls
+}
+
+// extraHuge runs lists of 20 000–50 000 keys (natural heights and every fourth tower forced to
+// height 12…19, so that levels up to 16+ hold thousands of nodes) through the real code and
+// the independent oracle only: the Lean model works on lists and is not run at this size (it
+// is run on the `large` stream up to 5 000 keys). The reflected towers are validated in place
+// after every operation (order, cycles, tower heights, level bookkeeping). Budget: 2 lists in
+// quick, 6 in thorough, ×ctx.Escalate (capped) when the anchored code drifted.
+func extraHuge(ctx *core.Ctx) (int, string, []core.ExtraFailure) {
+	if !hooks {
+		return 0, "skipped: private fields not found", nil
+	}
+	runs := 2
+	if ctx.Tier == "thorough" {
+		runs = 6
+	}
+	if ctx.Escalate > 1 {
+		runs *= 3
+	}
+	var fails []core.ExtraFailure
+	evals, keys := 0, 0
+	r := ctx.Rand
+	for i := 0; i < runs; i++ {
+		c := genHuge(r, i, ctx.Tier == "thorough" || ctx.Escalate > 1 || i == 0)
+		out := impl(c)
+		evals += len(c.Lines)
+		keys += hugeN(c)
+		if f := check(c, out); f != nil {
+			fails = append(fails, core.ExtraFailure{Failure: *f, Payload: map[string]any{"lines": c.Lines, "impl_out": trimOut(out)}})
+			break
+		}
+	}
+	return evals, fmt.Sprintf("%d lists, %d keys inserted in total, Go implementation + independent oracle + in-place tower validation (no Lean model at this size)", runs, keys), fails
+}
+
+func trimOut(out []string) []string {
+	o := make([]string, len(out))
+	for i, l := range out {
+		if len(l) > 300 {
+			l = l[:300] + "…"
+		}
+		o[i] = l
+	}
+	return o
+}
+
+func hugeN(c core.Case) int {
+	n := 0
+	for _, l := range c.Lines {
+		if t := core.Toks(l); t[0] == "fill" {
+			if a, ok := parseBulk(t); ok {
+				n += a.n
+			}
+		}
+	}
+	return n
+}
+
+func genHuge(r *core.Rand, i int, big bool) core.Case {
+	n := r.Range(20000, 30000)
+	if big {
+		n = r.Range(30000, 50000)
+	}
+	kind, cmp := "new", "nat"
+	if i%2 == 1 {
+		kind = "cmp"
+		cmp = []string{"nat", "rev", "diff", "sgnhash"}[r.Intn(4)]
+	}
+	lines := []string{fmt.Sprintf("@ C02 %s int %s vdump", kind, cmp)}
+	step := []int{1, 2, 5}[r.Intn(3)]
+	lo := []int{0, -n * step / 2}[r.Intn(2)]
+	hi := lo + n*step
+	probes := func() {
+		for j := 0; j*1000 <= n; j++ {
+			k := lo + step*j*1000 + r.Range(-1, 1)*step + r.Range(-1, 1)
+			switch r.Intn(4) {
+			case 0:
+				lines = append(lines, fmt.Sprintf("rfrom %d %d", k, r.Range(1, 4)))
+			case 1:
+				lines = append(lines, fmt.Sprintf("rrange %d %d %d", k, k+r.Range(0, 5)*step, r.Range(0, 7)))
+			case 2:
+				lines = append(lines, fmt.Sprintf("getnode %d", k))
+			case 3:
+				lines = append(lines, fmt.Sprintf("rm %d", k), fmt.Sprintf("setnx %d 5 %d", k, wordFor(r, r.Range(1, 24))))
+			}
+		}
+	}
+	lines = append(lines, fmt.Sprintf("set %d 7 1", lo), fmt.Sprintf("hold %d", lo))
+	for c, cycles := 0, r.Range(2, 3); c < cycles; c++ {
+		kindw := []string{"nat", "tall"}[(i+c)%2]
+		// two interleaved fills: the second one threads new nodes between existing towers
+		lines = append(lines, fmt.Sprintf("fill %d %d %d %d %s", lo, hi, 2*step, r.Uint64(), kindw))
+		lines = append(lines, fmt.Sprintf("fill %d %d %d %d %s", lo+step, hi, 2*step, r.Uint64(), []string{"nat", "tall"}[r.Intn(2)]))
+		lines = append(lines, "len")
+		probes()
+		lines = append(lines, "held", "heldset 77")
+		if c == 0 {
+			lines = append(lines, "keys", "values", "range 0", fmt.Sprintf("walkfrom %d", hi-3*step))
+		}
+		stride := []int{7, 101, 997, 7919}[r.Intn(4)]
+		for gcd(stride, n-1) != 1 {
+			stride++
+		}
+		switch r.Intn(3) {
+		case 0:
+			lines = append(lines, fmt.Sprintf("rmrange %d %d %d desc 1", lo+step, hi, step))
+		case 1:
+			lines = append(lines, fmt.Sprintf("rmrange %d %d %d stride %d", lo+step, hi, step, stride))
+		case 2:
+			mid := lo + step*(n/2)
+			lines = append(lines, fmt.Sprintf("rmrange %d %d %d desc 1", mid, hi, step), "len", fmt.Sprintf("rfrom %d 2", mid-2*step),
+				fmt.Sprintf("rmrange %d %d %d asc 1", lo+step, mid, step))
+		}
+		lines = append(lines, "len", "held", "range 2")
+		if c%2 == 0 {
+			lines = append(lines, "clear", "len", fmt.Sprintf("set %d 7 %d", lo, wordFor(r, r.Range(1, 20))), fmt.Sprintf("hold %d", lo))
+		}
+	}
+	lines = append(lines, "head", "all 3", "len")
+	return core.Case{Lines: lines, Tag: "huge"}
 }
